@@ -12,6 +12,10 @@
     * solution / extra arrays: unit inverse ∘ array-file round trip (C07) ∘ unified-file history (C08).
     * groups (second round): IGRP window layout for every NWGMAX / NGMAXZ / child count, and the IGRP / SGRP / XGRP
       tables regenerated from AggregateGroupData.{cpp,hpp} and rst/group.cpp agree item by item and measure by measure.
+    * multi-segment wells (third round): the hand-written segment → ISEG / RSEG window arithmetic of the writer
+      (AggregateMSWData.cpp) and of both readers (LoadRestart.cpp, rst/well.cpp), regenerated as index expressions, selects
+      the same flat position for every segment number; hence a whole segment set — any numbering, gaps, any storage
+      order — comes back segment number by segment number.
   NOT proved (correspondence / property mode only, counted in the evidence): right-hand sides emitted
   as `opaque`, computed-index (tracer) slots, MSW / UDQ / ACTIONX / network arrays, and the schedule
   rebuilt from the restart file — that one is *observed* on the real code, member-wise at every step
@@ -21,6 +25,7 @@ import OpmVerif.Proofs.RstSlots
 import OpmVerif.Proofs.RstSolution
 import OpmVerif.Proofs.RstGroup
 import OpmVerif.Proofs.RstMsw
+import OpmVerif.Proofs.RstSegWin
 
 namespace OpmVerif.Props.C05
 open OpmVerif.RstWindow OpmVerif.RstSlot OpmVerif.Gen.RstSlots OpmVerif.Ecl OpmVerif.Unrst
@@ -248,7 +253,67 @@ theorem msw_tables_agree :
      (∀ x ∈ sdeclaredExceptions, ∃ p ∈ spairs swriter sreader, p.2.field = x.1 ∧ spairCls p = .mismatch)) :=
   ⟨msw_index_enums_injective, msw_named_slots, msw_pairs_classified⟩
 
+open OpmVerif.RstSegWin OpmVerif.Gen.RstSegWin in
+/-- Multi-segment wells (third round): the index expressions regenerated from the sources — the writer's
+`auto iS = …` of ISeg::staticContrib and RSeg::staticContrib (top segment and loop) inside window `msw-1` of
+`entriesPerMSW` elements, LoadRestart's `getDataWindow ∘ SegmentVectors::rseg ∘ restoreSegmentQuantities(mswID - 1, …)`,
+and `iseg_offset` / `rseg_offset` of the RstWell constructor at candidate window `is = segno - 1` — all denote the one
+position `((msw-1)·NSEGMX + (segno-1))·elems`, for EVERY INTEHEAD, every well, every segment number and — the point —
+every storage position `idx` of the segment in the well's segment set.  LoadRestart files the segment under its number;
+RstWell gives window `is` the number `segno` exactly when `is = segno - 1`.  The sources of the variables (`segNumber` is
+`….segmentNumber()`, `mswID` is `IWEL[MsWID]`) and the list of accesses that do NOT go through the segment base are pinned: the only ISEG item
+stored by storage position is `SegNo`, and the item RstWell tests to decide that window `is` holds a segment is `BranchNo`
+(stored at the segment base; before ffeaf0779 it was `SegNo`, so gapped numberings came back with phantom / lost segments). -/
+theorem segment_windows_coincide (s : Seg) :
+    (∀ b ∈ writerIsegBases, writerPos writerIsegEntriesPerMSW b s.nisegz s = canon s.nisegz s) ∧
+    (∀ b ∈ writerRsegBases, writerPos writerRsegEntriesPerMSW b s.nrsegz s = canon s.nrsegz s) ∧
+    loaderRsegOff.eval (loaderEnv s) = canon s.nrsegz s ∧ loaderKey.eval (loaderEnv s) = s.segno ∧
+    (rstIsegOff.eval (rstEnv s (s.segno - 1)) = canon s.nisegz s ∧ rstRsegOff.eval (rstEnv s (s.segno - 1)) = canon s.nrsegz s ∧
+      rstSegNumber.eval (rstEnv s (s.segno - 1)) = s.segno) ∧
+    (∀ is, rstSegNumber.eval (rstEnv s is) = s.segno ↔ is = s.segno - 1) ∧
+    (writerIsegSegNumberSrc = ["segment.segmentNumber()"] ∧ writerRsegSegNumberSrc = ["segment0.segmentNumber()", "segment.segmentNumber()"] ∧
+      writerIsegElemsSrc = "nisegz(inteHead)" ∧ writerRsegElemsSrc = "nrsegz(inteHead)" ∧
+      loaderSegNumberSrc = "segSet[segID].segmentNumber()" ∧ loaderMswSrc = "iwel[VI::IWell::index::MsWID]" ∧
+      writerIsegOther = [("iSeg", "ind*noElmSeg+Ix::SegNo")] ∧ writerRsegOther = [("rSeg", "8")] ∧
+      rstExistsSrc = "iseg[iseg_offset+VI::ISeg::BranchNo]") :=
+  ⟨writer_iseg_pos s, writer_rseg_pos s, loader_rseg_pos s, loader_key s, rst_pos s, rst_number_inj s,
+   by decide, by decide, by decide, by decide, by decide, by decide, by decide, by decide, by decide⟩
+
+open OpmVerif.RstSegWin in
+/-- … and that canonical integer is the natural-number window position the round trip below is stated with. -/
+theorem segment_canon_is_window (nsegmx nisegz nrsegz w m idx n : Nat) (hm : 1 ≤ m) (hn : 1 ≤ n) :
+    canon (w : Int) ⟨nsegmx, nisegz, nrsegz, m, idx, n⟩ = ((segPos nsegmx w m n 0 : Nat) : Int) :=
+  canon_eq_segPos nsegmx nisegz nrsegz w m idx n hm hn
+
+open OpmVerif.RstSegWin in
+/-- Round trip of a whole segment set: for every number of MS wells, NSEGMX, window size, item, every MS well `m` and
+EVERY list of segments `(number, value)` in storage order whose numbers are pairwise distinct and lie in `1 … NSEGMX`
+(any numbering, any gaps, any order): after the writer has stored each value at `item` of the window of the segment's
+number (a sequence of stores into the flat array), the window of segment number `n` holds, at `item`, the value of
+segment `n` — for every segment of the set. -/
+theorem segment_set_roundtrip {α : Type} (nmsw nsegmx w item m : Nat) (segs : List (Nat × α)) (xs : List α)
+    (hlen : xs.length = (nmsw * nsegmx) * w) (hm : 1 ≤ m ∧ m ≤ nmsw) (hitem : item < w)
+    (hnum : ∀ s ∈ segs, 1 ≤ s.1 ∧ s.1 ≤ nsegmx) (hnd : (segs.map (·.1)).Nodup) :
+    ∀ s ∈ segs, (writeFlat xs (segs.map fun t => (segPos nsegmx w m t.1 item, t.2)))[segPos nsegmx w m s.1 item]? = some s.2 :=
+  seg_roundtrip nmsw nsegmx w item m segs xs hlen hm hitem hnum hnd
+
+open OpmVerif.RstSegWin in
+/-- A reader that selects the window by storage position reads a different element whenever position + 1 ≠ number. -/
+theorem segment_position_reader_differs (nsegmx w m n idx item : Nat) (hn : 1 ≤ n ∧ n ≤ nsegmx) (hidx : idx < nsegmx)
+    (hitem : item < w) (hne : idx + 1 ≠ n) :
+    segPos nsegmx w m (idx + 1) item ≠ segPos nsegmx w m n item :=
+  position_reader_differs nsegmx w m n idx item hn hidx hitem hne
+
 /-! Non-vacuity. -/
+
+-- segment numbers with gaps, stored in an order that is not the numbering order (branch 2 = {12, 6}), second MS well of
+-- two, NSEGMX = 20, window size 3, item 1: every hypothesis of `segment_set_roundtrip` holds and segment 12 (storage
+-- position 3) reads its own value, which a reader going by position (window 3 = segment 4) would not
+example : let segs : List (Nat × Nat) := [(1, 101), (2, 102), (3, 103), (12, 112), (6, 106), (7, 107), (8, 108)]
+    (∀ s ∈ segs, 1 ≤ s.1 ∧ s.1 ≤ 20) ∧ (segs.map (·.1)).Nodup ∧
+    (OpmVerif.RstWindow.writeFlat (List.replicate (2 * 20 * 3) 0) (segs.map fun t => (OpmVerif.RstSegWin.segPos 20 3 2 t.1 1, t.2)))[OpmVerif.RstSegWin.segPos 20 3 2 12 1]? = some 112 ∧
+    (OpmVerif.RstWindow.writeFlat (List.replicate (2 * 20 * 3) 0) (segs.map fun t => (OpmVerif.RstSegWin.segPos 20 3 2 t.1 1, t.2)))[OpmVerif.RstSegWin.segPos 20 3 2 (3 + 1) 1]? = some 0 := by decide
+example : OpmVerif.RstSegWin.canon 11 ⟨20, 7, 11, 2, 3, 12⟩ = (20 + 11) * 11 := by decide
 
 example : (OpmVerif.RstMsw.spairs OpmVerif.Gen.RstMsw.swriter OpmVerif.Gen.RstMsw.sreader).length = 44 := by decide +kernel
 -- group tables: sizes of what the theorems range over, and an IGRP window with three children under NWGMAX = 5
